@@ -25,6 +25,7 @@ BASE_CFG = {
     "final_order": 0.6,
     "ops": {"ordered_window": 5, "window": 4, "natural_join": 4, "order_rows": 3},
     "null_order_cols": True,
+    "block_table_prob": 0.15,
 }
 
 INDEX_KINDS = ["default", "shuffled_int", "str_labels", "duplicate_labels", "descending", "range_offset", "range_step"]
